@@ -494,27 +494,43 @@ def flag_clear(c: N) -> Optional[N]:
     return None
 
 
-def guard_literals(guard: Sequence[Tuple[N, bool]]) -> List[Tuple[N, bool]]:
+def boolean_locals(body: Sequence[N]) -> Dict[str, N]:
+    """routine variable -> its defining test, for variables assigned exactly once, by `SET v = <comparison / AND / OR / NOT ..>` (a boolean
+    local holding a test before the IF that uses it)."""
+    out: Dict[str, N] = {}
+    for v, defs in assigned_from(body).items():
+        if len(defs) == 1 and defs[0][1] is None:
+            e = defs[0][0]
+            if (e.kind == 'bin' and e.op in ('=', '!=', '<', '<=', '>', '>=', '<=>', 'AND', 'OR')) or (e.kind == 'un' and e.op == 'NOT') or e.kind in ('isnull', 'in'):
+                out[v] = e
+    return out
+
+
+def guard_literals(guard: Sequence[Tuple[N, bool]], locals_: Optional[Dict[str, N]] = None) -> List[Tuple[N, bool]]:
     """A path condition as a list of (atom, polarity) literals: AND under positive polarity, OR under negative polarity and NOT are
     resolved; `x = 0 / x = FALSE / x != 1` count as the negative literal on x and `x = 1 / x = TRUE / x != 0` as the positive one
     (routine variables holding the result of a boolean function are never NULL)."""
     out: List[Tuple[N, bool]] = []
 
-    def rec(c: N, pol: bool) -> None:
+    def rec(c: N, pol: bool, depth: int = 0) -> None:
+        if locals_ and sr.is_var(c) and c.parts[0].lower() in locals_ and depth < 4:
+            # a boolean local is followed to the test it was assigned
+            rec(locals_[c.parts[0].lower()], pol, depth + 1)
+            return
         if c.kind == 'un' and c.op == 'NOT':
-            rec(c.arg, not pol)
+            rec(c.arg, not pol, depth)
             return
         if c.kind == 'bin' and ((c.op == 'AND' and pol) or (c.op == 'OR' and not pol)):
-            rec(c.left, pol)
-            rec(c.right, pol)
+            rec(c.left, pol, depth)
+            rec(c.right, pol, depth)
             return
         x = flag_clear(c)
         if x is not None and c.kind == 'bin':
-            out.append((x, not pol))
+            rec(x, not pol, depth) if sr.is_var(x) else out.append((x, not pol))
             return
         y = flag_set(c)
         if y is not None and c.kind == 'bin':
-            out.append((y, pol))
+            rec(y, pol, depth) if sr.is_var(y) else out.append((y, pol))
             return
         out.append((c, pol))
     for c, pol in guard:
